@@ -33,3 +33,27 @@ func calledClosure(cc *ssa.CallCommon) *ssa.Function {
 	}
 	return nil
 }
+
+// freeVarBindings maps the names of a closure's free variables to the values
+// bound by the MakeClosure instruction in its parent function.
+func freeVarBindings(fn *ssa.Function) map[string]ssa.Value {
+	out := map[string]ssa.Value{}
+	par := fn.Parent()
+	if par == nil {
+		return out
+	}
+	for _, b := range par.Blocks {
+		for _, i := range b.Instrs {
+			mc, ok := i.(*ssa.MakeClosure)
+			if !ok || mc.Fn != ssa.Value(fn) {
+				continue
+			}
+			for k, fv := range fn.FreeVars {
+				if k < len(mc.Bindings) {
+					out[fv.Name()] = mc.Bindings[k]
+				}
+			}
+		}
+	}
+	return out
+}
